@@ -128,6 +128,39 @@ def _crashable_model():
     return _CRASHABLE
 
 
+_NESTED5 = None
+
+
+def _outer_with_nested_functions():
+    """an OUTER @onnx_function whose body calls five different nested @onnx_functions: the FunctionProto of the outer
+    function declares one opset import per nested custom domain (function_scope.FunctionScope.to_ir_function)"""
+    global _NESTED5
+    if _NESTED5 is None:
+        import jax.numpy as jnp
+        from jax2onnx import onnx_function
+        g = globals()
+
+        def _mk(name, fn):
+            fn.__name__ = name
+            fn.__qualname__ = name
+            fn.__module__ = __name__
+            g[name] = fn
+            g[name] = onnx_function(fn)
+
+        _mk("c14_nf_alpha", lambda x: jnp.tanh(x) * 2.0)
+        _mk("c14_nf_bravo", lambda x: jnp.exp(x) - 1.0)
+        _mk("c14_nf_charlie", lambda x: jnp.abs(x) + 0.5)
+        _mk("c14_nf_delta", lambda x: jnp.sin(x) * x)
+        _mk("c14_nf_echo", lambda x: jnp.maximum(x, 0.25))
+
+        def c14_nf_outer(x):
+            return (g["c14_nf_alpha"](x) + g["c14_nf_bravo"](x) + g["c14_nf_charlie"](x)
+                    + g["c14_nf_delta"](x) + g["c14_nf_echo"](x))
+        _mk("c14_nf_outer", c14_nf_outer)
+        _NESTED5 = lambda x: g["c14_nf_outer"](x) * 0.5  # noqa: E731
+    return _NESTED5
+
+
 def _two_call_params_net():
     """@onnx_function module whose __call__ accepts call parameters that the call site does not pass
     (plugin_system.py:952 iterates the SET of call-parameter names)"""
@@ -220,6 +253,7 @@ def own_programs():
     s4 = [(1, 4, 8, 6)]
     return {
         "c14:function_crashable": (_crashable_model(), [(2, 3)], {}),
+        "c14:outer_function_five_nested": (_outer_with_nested_functions(), [(2, 3)], {}),
         "c14:function_two_call_params": (net2, [(2, 4)],
                                          {"input_params": {"deterministic": True, "train_flag": False, "other": True}}),
         "c14:forest_unary_after_add": (forest_unary_after_add, s4 * 2, {}),
@@ -236,7 +270,7 @@ def own_programs():
     }
 
 
-OWN_NAMES = ["c14:function_crashable", "c14:function_two_call_params", "c14:forest_unary_after_add", "c14:forest_binary_only", "c14:forest_two_outputs",
+OWN_NAMES = ["c14:function_crashable", "c14:outer_function_five_nested", "c14:function_two_call_params", "c14:forest_unary_after_add", "c14:forest_binary_only", "c14:forest_two_outputs",
              "c14:add_forest_two_outputs", "c14:chain_three_unary", "c14:two_dropouts_call_param",
              "c14:conv_bn_residual_nchw_io", "c14:conv_bn_residual_symbolic_nchw_io", "c14:gather_const_index_chain"]
 # requests that history job h exports as the very FIRST conversion of its process (then 3x repeated): state that
